@@ -104,8 +104,15 @@ def rand_bytes(rng, text_safe):
     mode = rng.random()
     if mode < 0.3:
         b = [rng.choice(b'abcXYZ019 _-+*/') for _ in range(n)]
-    elif mode < 0.5:
+    elif mode < 0.45:
         b = [rng.choice([0, 7, 8, 9, 10, 11, 12, 13, 27, 34, 39, 92, 127, 128, 255, 0x5c, 0x22, 0x3f]) for _ in range(n)]
+    elif mode < 0.6:
+        # escapes followed by characters that could be swallowed by a longer escape
+        b = []
+        while len(b) < n:
+            b.append(rng.choice([0, 1, 2, 7, 27, 31, 63, 64, 127, 200, 255, 92, 34, 13]))
+            b.append(rng.choice(b'01234567890abfnrtvxX\\"\''))
+        b = b[:n]
     else:
         b = [rng.randint(0, 255) for _ in range(n)]
     if text_safe and n > 0:
@@ -309,12 +316,14 @@ class ModGen:
             fn['placed'].add(l)
             self.emit('label %d' % l)
 
-    def gen_syntactic_func(self):
+    def gen_syntactic_func(self, pre_labels=()):
         rng = self.rng
         name = self.fresh('fn')
         vararg, res, args = self.gen_sig(True)
         args = [a for a in args if not a.startswith('rblk')] if rng.random() < 0.5 else args
         fn = self.open_func(name, vararg, res, args)
+        fn['labels'] = list(pre_labels) + fn['labels']
+        fn['maxlabels'] += len(pre_labels)
         self.items.append((name, 'func'))
         regs = fn['regs']
         n = rng.choice([0, 1, 3, 8, 20]) if not self.big else rng.randint(200, 2000)
@@ -632,8 +641,14 @@ class ModGen:
                 self.emit('proto %s %d %s' % (n, vararg, ' '.join(res + args)))
                 self.protos.append((n, vararg, res, args))
             elif k == 'func':
+                pre = []
+                if rng.random() < 0.15:
+                    # an lref item in front of the function that owns its labels
+                    pre = self.new_labels(rng.choice([1, 2]))
+                    self.emit('lref %s %d %s %d' % (self.fresh('lq') if rng.random() < 0.7 else '-', pre[0],
+                                                    pre[1] if len(pre) > 1 else '-', rng.choice([0, 0, 16])))
                 before = len(self.stmts)
-                self.gen_syntactic_func()
+                self.gen_syntactic_func(pre)
                 placed = [int(s.split()[1]) for s in self.stmts[before:] if s.startswith('label ')]
                 if placed:
                     lref_cands.append(placed)
